@@ -1173,7 +1173,9 @@ def rule_key_order_and_cjk(chk):
                       (a + b + z + D[3], 100 * d + 3), (a + q + z + D[3], 1000 * d + 3), (a + q + z + D[3] + s, 1000 * d + 30),
                       (a + w + z + D[3], 10000 * d + 3), (a + b + D[2] + s + D[3], 100 * d + 23), (a + b + D[2] + s, 100 * d + 20),
                       (a + q + D[2] + b, 1000 * d + 200), (a + s + D[3], 10 * d + 3), (a + w + D[3] + q, 10000 * d + 3000),
-                      (a + q + z + D[3] + s + D[2], 1000 * d + 32), (a + w + z + D[3] + b, 10000 * d + 300)]
+                      (a + q + z + D[3] + s + D[2], 1000 * d + 32), (a + w + z + D[3] + b, 10000 * d + 300),
+                      (a + s + w, 100000 * d), (a + b + w, 1000000 * d), (a + q + w, 10000000 * d),
+                      (a + b + D[2] + s + w, (100 * d + 20) * 10000), (a + s + w + D[3] + q, 100000 * d + 3000)]
             if code == 'zh-cn':
                 cases += [(a + b + D[5], 100 * d + 50), (a + q + D[5], 1000 * d + 500), (a + w + D[5], 10000 * d + 5000)]
         cases += [(s, 10), (s + D[3], 13), (z, 0)]
